@@ -201,6 +201,9 @@ class Interp:
                 if isinstance(v, (Tup, EnumV)): v = v.items[p["i"]] if p["i"] < len(v.items) else None
                 elif v == "SELF":
                     v = getattr(self, "self_fields", {}).get(p.get("name"), "SELF." + p.get("name", "?"))
+                    if v == "SELF.ext_flags":
+                        # the optional EDNS flag word: present iff E, bits e0..e15 (so that match / if let / is_some / unwrap_or all read it alike)
+                        v = EnumS(BF.var("E"), EnumV("std::option::Option", 1, [BV([BF.var(f"e{i}") for i in range(16)])]), EnumV("std::option::Option", 0, []))
                 else: return None
             elif p["k"] == "constindex" or p["k"] == "index":
                 if isinstance(v, View):
